@@ -575,19 +575,25 @@ impl<'a, T: Send> Future for RecvBatchFuture<'a, T> {
       }
     }
 
+    let maybe_linked = this.is_registered;
     this.is_registered = true;
     match this
       .receiver
       .shared
       .poll_recv_batch_internal(cx, state_ptr, &mut out, this.max)
     {
-      Poll::Ready(Ok(_)) => {
+      Poll::Ready(res) => {
         this.is_registered = false;
-        Poll::Ready(Ok(out))
-      }
-      Poll::Ready(Err(e)) => {
-        this.is_registered = false;
-        Poll::Ready(Err(e))
+        if maybe_linked {
+          // Polled again while our record was still queued (a combinator or another wake
+          // source may poll at any time) and this poll completed: the record must not outlive
+          // the future, or a later sender dereferences its dangling `state` pointer.
+          let mut guard = this.receiver.shared.internal.lock();
+          guard
+            .waiting_async_receivers
+            .retain(|w| w.state != state_ptr);
+        }
+        Poll::Ready(res.map(|_| out))
       }
       Poll::Pending => Poll::Pending,
     }
@@ -664,6 +670,7 @@ impl<'a, T: Send> Future for RecvBatchMutFuture<'a, T> {
       }
     }
 
+    let maybe_linked = this.is_registered;
     this.is_registered = true;
     match this
       .receiver
@@ -672,6 +679,15 @@ impl<'a, T: Send> Future for RecvBatchMutFuture<'a, T> {
     {
       Poll::Ready(res) => {
         this.is_registered = false;
+        if maybe_linked {
+          // Polled again while our record was still queued (a combinator or another wake
+          // source may poll at any time) and this poll completed: the record must not outlive
+          // the future, or a later sender dereferences its dangling `state` pointer.
+          let mut guard = this.receiver.shared.internal.lock();
+          guard
+            .waiting_async_receivers
+            .retain(|w| w.state != state_ptr);
+        }
         Poll::Ready(res)
       }
       Poll::Pending => Poll::Pending,
@@ -745,10 +761,20 @@ impl<'a, T: Send> Future for RecvFuture<'a, T> {
       }
     }
 
+    let maybe_linked = this.is_registered;
     this.is_registered = true;
     match this.receiver.shared.poll_recv_internal(cx, state_ptr) {
       Poll::Ready(res) => {
         this.is_registered = false;
+        if maybe_linked {
+          // Polled again while our record was still queued (a combinator or another wake
+          // source may poll at any time) and this poll completed: the record must not outlive
+          // the future, or a later sender dereferences its dangling `state` pointer.
+          let mut guard = this.receiver.shared.internal.lock();
+          guard
+            .waiting_async_receivers
+            .retain(|w| w.state != state_ptr);
+        }
         Poll::Ready(res)
       }
       Poll::Pending => Poll::Pending,
@@ -789,9 +815,20 @@ impl<T: Send> Stream for AsyncReceiver<T> {
     }
 
     let state_ptr = &this.state as *const AtomicU8;
+    // still queued only if an earlier poll parked us and no notifier has popped the record since
+    let maybe_linked = this.is_registered && (this.state.load(Ordering::SeqCst) & 0x01) == 0;
     this.is_registered = true;
 
-    match this.shared.poll_recv_internal(cx, state_ptr) {
+    let polled = this.shared.poll_recv_internal(cx, state_ptr);
+    if polled.is_ready() && maybe_linked {
+      // Completed while a record from an earlier pending poll may still be queued: unlink it
+      // before the inline state is reset and the (Unpin) receiver can be moved.
+      let mut guard = this.shared.internal.lock();
+      guard
+        .waiting_async_receivers
+        .retain(|w| w.state != state_ptr);
+    }
+    match polled {
       Poll::Ready(Ok(value)) => {
         this.is_registered = false;
         this.state.store(STATE_WAITING, Ordering::Relaxed); // Reset for next recv cycle.
